@@ -110,7 +110,25 @@ class Gen:
         "cons": ("fn cons<A>(x: A, xs: List<A>) -> List<A>", None),
         "cons_end": ("fn cons_end<A>(x: A, xs: List<A>) -> List<A>", None),
         "str_length": ("fn str_length(s: String) -> Scalar", None),
+        "str_slice": ("fn str_slice(start: Scalar, end: Scalar, s: String) -> String", None),
+        "uppercase": ("fn uppercase(s: String) -> String", None),
+        "lowercase": ("fn lowercase(s: String) -> String", None),
     }
+
+    # list functions of the prelude (modules/core/lists.nbt), defined by the program itself
+    LISTLIB = [
+        ("is_empty", "fn is_empty<A>(xs: List<A>) -> Bool = xs == []",
+         'SFn "is_empty" ["xs"] [] (EBin BEq (EIdent "xs") (EList []))'),
+        ("concat", "fn concat<A>(xs1: List<A>, xs2: List<A>) -> List<A> = if is_empty(xs1) then xs2 else cons(head(xs1), concat(tail(xs1), xs2))",
+         'SFn "concat" ["xs1"; "xs2"] [] (ECond (ECall "is_empty" [EIdent "xs1"]) (EIdent "xs2") '
+         '(ECall "cons" [ECall "head" [EIdent "xs1"]; ECall "concat" [ECall "tail" [EIdent "xs1"]; EIdent "xs2"]]))'),
+        ("reverse", "fn reverse<A>(xs: List<A>) -> List<A> = if is_empty(xs) then [] else cons_end(head(xs), reverse(tail(xs)))",
+         'SFn "reverse" ["xs"] [] (ECond (ECall "is_empty" [EIdent "xs"]) (EList []) '
+         '(ECall "cons_end" [ECall "head" [EIdent "xs"]; ECall "reverse" [ECall "tail" [EIdent "xs"]]]))'),
+        ("map", "fn map<A, B>(f: Fn[(A) -> B], xs: List<A>) -> List<B> = if is_empty(xs) then [] else cons(f(head(xs)), map(f, tail(xs)))",
+         'SFn "map" ["f"; "xs"] [] (ECond (ECall "is_empty" [EIdent "xs"]) (EList []) '
+         '(ECall "cons" [ECallable (EIdent "f") [ECall "head" [EIdent "xs"]]; ECall "map" [EIdent "f"; ECall "tail" [EIdent "xs"]]]))'),
+    ]
 
     def __init__(self, rng, profile):
         self.rng = rng
@@ -122,6 +140,8 @@ class Gen:
         self.structs = {}     # name -> [(field, type)]
         self.foreign = set()
         self.features = collections.Counter()
+        self.glob_lo = {}      # global list variable -> guaranteed minimum length
+        self.in_function = False
         self.ans_type = None   # type of the last expression statement (`ans`)
         self.cost = 0          # estimated evaluation steps of the code generated since the last reset
         self.fn_cost = {}      # name -> estimated steps of one call
@@ -165,13 +185,11 @@ class Gen:
                 res = self.field(t, d, scope, nostr)
                 if res:
                     return res
-            if c < 0.34 and "head" in self.foreign and not (nostr and self.has_str(t)):
-                # head of a non-empty literal / cons
-                e, ec = self.expr(t, d - 1, scope, nostr)
-                l, lc = self.expr(tlist(t), d - 1, scope, nostr)
-                if "cons" in self.foreign:
-                    self.features["head"] += 1
-                    return "head(cons(%s, %s))" % (e, l), 'ECall "head" [ECall "cons" [%s; %s]]' % (ec, lc)
+            if c < 0.34 and "head" in self.foreign and not (nostr and self.has_str(t)) and t[0] in "SBTR":
+                # head of a list that is guaranteed to be non-empty
+                l, lc, _ = self.list_expr(t, d - 1, scope, nostr, minlo=1)
+                self.features["head"] += 1
+                return "head(%s)" % l, 'ECall "head" [%s]' % lc
         if k == "S":
             if leaf:
                 n = r.randrange(0, 10)
@@ -203,7 +221,7 @@ class Gen:
                 return "(%d!)" % n, "EUn (UFact 1) (EScalar %d%%Z)" % n
             if c < 0.80 and "len" in self.foreign:
                 et = r.choice([S, B])
-                l, lc = self.expr(tlist(et), d - 1, scope, nostr)
+                l, lc, _ = self.list_expr(et, d - 1, scope, nostr)
                 self.features["len"] += 1
                 return "len(%s)" % l, 'ECall "len" [%s]' % lc
             if c < 0.86 and "str_length" in self.foreign and not nostr:
@@ -231,7 +249,14 @@ class Gen:
             if c < 0.82:
                 a, ac = self.expr(B, d - 1, scope, nostr)
                 return "(!%s)" % a, "EUn UNot (%s)" % ac
-            if c < 0.92 and not nostr:
+            if c < 0.87:
+                op, cop = r.choice([("==", "BEq"), ("!=", "BNe")])
+                et = r.choice([S, S, B])
+                a, ac, _ = self.list_expr(et, d - 1, scope, nostr)
+                b, bc, _ = self.list_expr(et, d - 1, scope, nostr)
+                self.features["listeq"] += 1
+                return "(%s %s %s)" % (a, op, b), "EBin %s (%s) (%s)" % (cop, ac, bc)
+            if c < 0.93 and not nostr:
                 op, cop = r.choice([("==", "BEq"), ("!=", "BNe")])
                 a, ac = self.expr(T, d - 1, scope)
                 b, bc = self.expr(T, d - 1, scope)
@@ -242,6 +267,17 @@ class Gen:
         if k == "T":
             if nostr:
                 raise RuntimeError("string inside interpolation")
+            if not leaf and r.random() < 0.12:
+                fs = [f for f in ("uppercase", "lowercase", "str_slice") if f in self.foreign]
+                if fs:
+                    f = r.choice(fs)
+                    a, ac = self.expr(T, d - 1, scope)
+                    self.features["strfn"] += 1
+                    if f == "str_slice":
+                        i0, i1 = r.randrange(0, 4), r.randrange(0, 6)
+                        return ("str_slice(%d, %d, %s)" % (i0, i1, a),
+                                'ECall "str_slice" [EScalar %d%%Z; EScalar %d%%Z; %s]' % (i0, i1, ac))
+                    return "%s(%s)" % (f, a), "ECall %s [%s]" % (cstr(f), ac)
             nparts = 1 if leaf else r.randrange(1, 5)
             src, parts = "", []
             last_fixed = False
@@ -273,21 +309,8 @@ class Gen:
                 parts = ['inl ""']       # the parser yields one empty Fixed part for ""
             return '"%s"' % src, "EString %s" % clist(parts)
         if k == "L":
-            n = r.randrange(1, 4) if not leaf else r.randrange(1, 3)
-            c = r.random()
-            if not leaf and c < 0.2 and "cons" in self.foreign:
-                e, ec = self.expr(t[1], d - 1, scope, nostr)
-                l, lc = self.expr(t, d - 1, scope, nostr)
-                f = r.choice(["cons", "cons_end"]) if "cons_end" in self.foreign else "cons"
-                self.features["cons"] += 1
-                return "%s(%s, %s)" % (f, e, l), 'ECall %s [%s; %s]' % (cstr(f), ec, lc)
-            if not leaf and c < 0.3 and "tail" in self.foreign and "cons" in self.foreign:
-                e, ec = self.expr(t[1], d - 1, scope, nostr)
-                l, lc = self.expr(t, d - 1, scope, nostr)
-                return "tail(cons(%s, %s))" % (e, l), 'ECall "tail" [ECall "cons" [%s; %s]]' % (ec, lc)
-            es = [self.expr(t[1], d - 1, scope, nostr) for _ in range(n)]
-            self.features["list"] += 1
-            return "[%s]" % ", ".join(e for e, _ in es), "EList %s" % clist(c for _, c in es)
+            l, lc, _ = self.list_expr(t[1], d, scope, nostr)
+            return l, lc
         if k == "R":
             if nostr:
                 raise LookupError("no struct literal inside an interpolation")
@@ -309,6 +332,79 @@ class Gen:
                 return f, "EIdent %s" % cstr(f)
             raise LookupError("no function of type")
         raise RuntimeError(t)
+
+    def var_lo(self, name, scope):
+        if self.in_function or name not in self.globals or scope.get(name) != self.globals.get(name):
+            return 0
+        return self.glob_lo.get(name, 0)
+
+    def list_expr(self, et, d, scope, nostr=False, minlo=0, allow_empty=False):
+        """a list expression over element type et with at least minlo elements.
+        returns (src, coq, lo) with lo a guaranteed lower bound of its length"""
+        r = self.rng
+        t = tlist(et)
+        self.cost += 1
+        F = self.foreign
+        vs = [n for n in self.scope_vars(scope, t) if self.var_lo(n, scope) >= minlo]
+        leaf = d <= 0 or r.random() < 0.15
+        ch = ["lit", "lit"]
+        if vs:
+            ch += ["var"] * 3
+        if not leaf:
+            if "cons" in F:
+                ch += ["cons"] * 3
+            if "cons_end" in F:
+                ch += ["cons_end"] * 2
+            if "tail" in F:
+                ch += ["tail"] * 3
+            if "tail" in F and "cons" in F:
+                ch += ["chain"] * 3
+            ch += ["cond"]
+            if minlo == 0:
+                ch += ["call"] * 2
+        k = r.choice(ch)
+        if k == "var":
+            x = r.choice(vs)
+            self.features["var"] += 1
+            return x, "EIdent %s" % cstr(x), self.var_lo(x, scope)
+        if k in ("cons", "cons_end"):
+            e, ec = self.expr(et, d - 1, scope, nostr)
+            l, lc, lo = self.list_expr(et, d - 1, scope, nostr, max(0, minlo - 1), allow_empty=True)
+            self.features[k] += 1
+            return "%s(%s, %s)" % (k, e, l), "ECall %s [%s; %s]" % (cstr(k), ec, lc), lo + 1
+        if k == "tail":
+            l, lc, lo = self.list_expr(et, d - 1, scope, nostr, minlo + 1)
+            self.features["tail"] += 1
+            return "tail(%s)" % l, 'ECall "tail" [%s]' % lc, lo - 1
+        if k == "chain":
+            # tail^k of an UNSHARED temporary (literal), then cons / cons_end j times
+            n = r.randrange(1, 6)
+            kt = r.randrange(1, n + 1)
+            j = max(r.randrange(0, kt + 3), minlo - (n - kt))
+            es = [self.expr(et, 0, scope, nostr) for _ in range(n)]
+            src, coq = "[%s]" % ", ".join(e for e, _ in es), "EList %s" % clist(c for _, c in es)
+            for _ in range(kt):
+                src, coq = "tail(%s)" % src, 'ECall "tail" [%s]' % coq
+            for _ in range(j):
+                f = r.choice(["cons", "cons", "cons_end"]) if "cons_end" in F else "cons"
+                e, ec = self.expr(et, 0, scope, nostr)
+                src, coq = "%s(%s, %s)" % (f, e, src), "ECall %s [%s; %s]" % (cstr(f), ec, coq)
+            self.features["tail_cons_chain"] += 1
+            return src, coq, n - kt + j
+        if k == "cond":
+            cs, cc = self.expr(B, d - 1, scope, nostr)
+            a, ac, la = self.list_expr(et, d - 1, scope, nostr, minlo)
+            b, bc, lb = self.list_expr(et, d - 1, scope, nostr, minlo)
+            self.features["cond"] += 1
+            return "(if %s then %s else %s)" % (cs, a, b), "ECond (%s) (%s) (%s)" % (cc, ac, bc), min(la, lb)
+        if k == "call":
+            res = self.call(t, d, scope, nostr)
+            if res:
+                return res[0], res[1], 0
+        n = max(minlo, r.randrange(0 if allow_empty else 1, 4))
+        es = [self.expr(et, d - 1, scope, nostr) for _ in range(n)]
+        self.features["list"] += 1
+        return "[%s]" % ", ".join(e for e, _ in es), "EList %s" % clist(c for _, c in es), n
 
     def has_str(self, t):
         if t[0] == "T":
@@ -441,12 +537,17 @@ class Gen:
         if x in self.globals:
             self.features["shadow_global"] += 1
         self.cost = 0
+        lo = 0
         try:
-            e, ec = self.expr(t, r.randrange(1, 4), self.top_scope())
+            if t[0] == "L":
+                e, ec, lo = self.list_expr(t[1], r.randrange(1, 4), self.top_scope())
+            else:
+                e, ec = self.expr(t, r.randrange(1, 4), self.top_scope())
         except LookupError:
             return False
         if self.cost > self.STMT_LIMIT:
             return False
+        self.glob_lo[x] = lo
         self.src.append("let %s = %s" % (x, e))
         self.coq.append("SLet %s (%s)" % (cstr(x), ec))
         self.globals[x] = t
@@ -530,6 +631,7 @@ class Gen:
         old_cost = self.fn_cost.pop(name, None)
         self.cost = 0
         nrec = 0
+        self.in_function = True
         # where-locals
         wl = []
         if r.random() < 0.45:
@@ -582,11 +684,13 @@ class Gen:
             else:
                 body, bodyc = self.expr(ret, r.randrange(1, 4), dict(scope))
         except LookupError:
+            self.in_function = False
             if old is not None:
                 self.fns[name] = old
                 if old_cost is not None:
                     self.fn_cost[name] = old_cost
             return False
+        self.in_function = False
         # one call: the body once per activation; literal depths are at most 4
         acts = 1 if not recursive else (31 if nrec == 2 else 5)
         if selfref:
@@ -618,6 +722,19 @@ class Gen:
             if r.random() < 0.7:
                 self.stmt_foreign(f)
         n = r.randrange(3, 11)
+        if self.profile == "listlib":
+            for f in ("head", "tail", "cons", "cons_end", "len"):
+                self.stmt_foreign(f)
+            LS = tlist(S)
+            for name, src, coq in self.LISTLIB:
+                self.src.append(src)
+                self.coq.append(coq)
+            self.fns["is_empty"] = ([LS], B, False)
+            self.fns["concat"] = ([LS, LS], LS, False)
+            self.fns["reverse"] = ([LS], LS, False)
+            self.fns["map"] = ([tfn([S], S), LS], LS, False)
+            self.fn_cost.update({"is_empty": 5, "concat": 200, "reverse": 200, "map": 250})
+            self.features["listlib"] += 1
         if self.profile == "fnheavy":
             # an `apply`-style function early so that function values get used
             self.src.append("fn w(g: Fn[(Scalar) -> Scalar], x: Scalar) -> Scalar = g(x)")
@@ -914,7 +1031,7 @@ def run(chk):
             cases.append(funref_pattern(chk.rng))
             kinds.append("funref-pattern")
             continue
-        g = Gen(chk.rng, "fnheavy" if n % 3 == 0 else "plain")
+        g = Gen(chk.rng, "fnheavy" if n % 3 == 0 else ("listlib" if n % 3 == 1 else "plain"))
         try:
             s, c = g.program()
         except (LookupError, RuntimeError, IndexError):
